@@ -203,6 +203,36 @@ Qed.
 Theorem C12_dataframe_collection_terminates : forall srt (sl : list (cid * frame)) f0, load_auto srt sl f0 <> OutOfFuel.
 Proof. exact load_auto_total. Qed.
 
+(* ================= (11) the block-time table's Get, TRANSLATED from blocktimeindex/writer.go on every check
+   (Generated/GoLiteBT.v, interpreter coq/GoLite.v in which an index outside a slice IS a panic): for every table
+   (start, end and the number of values come from the file and need not agree) and every slot the call returns the
+   outcome class of the model's bt_get with all guards on — a value or the out-of-range error, never a panic ===== *)
+Require YF.GoLite YF.Generated.GoLiteBT YF.GoLiteBT_Index.
+Import String.
+Theorem C12_translated_blocktime_Get_never_panics : forall fuel (start end_ epoch : N) (values : list N) (slot : N) (ep cap : Z),
+  (start < 18446744073709551616)%N -> (end_ < 18446744073709551616)%N -> (slot < 18446744073709551616)%N ->
+  (N.of_nat (List.length values) < 18446744073709551616)%N ->
+  match bt_get bt_all (mk_bt start end_ epoch (N.of_nat (List.length values))) slot with
+  | OOk _ => exists v, GoLite.call GoLiteBT.prog GoLiteBT_Index.ext_bt fuel "Index.Get"%string
+        [GoLiteBT_Index.index_val (Z.of_N start) (Z.of_N end_) ep cap (map Z.of_N values); GoLite.VInt (Z.of_N slot)]
+        = GoLite.RRet (GoLite.VTuple [GoLite.VInt v; GoLite.VNil])
+  | OErr => GoLite.call GoLiteBT.prog GoLiteBT_Index.ext_bt fuel "Index.Get"%string
+        [GoLiteBT_Index.index_val (Z.of_N start) (Z.of_N end_) ep cap (map Z.of_N values); GoLite.VInt (Z.of_N slot)]
+        = GoLite.RRet (GoLite.VTuple [GoLite.VInt 0%Z; GoLiteBT_Index.oor])
+  | OPanic _ => False
+  end.
+Proof.
+  exact (fun fuel start end_ epoch values slot ep cap =>
+    GoLiteBT_Index.Get_class_is_c12 GoLiteBT.prog GoLiteBT.prog_Index_Get fuel start end_ epoch values slot ep cap).
+Qed.
+(* the translated Get RUNS; on the witness of the pinned tree's former defect (capacity 1, slot 5) it is the error *)
+Example C12_translated_blocktime_Get_runs :
+  GoLite.call GoLiteBT.prog GoLiteBT_Index.ext_bt 0 "Index.Get"%string
+    [GoLiteBT_Index.index_val 0 431999 0 1 [77%Z]; GoLite.VInt 5%Z] = GoLite.RRet (GoLite.VTuple [GoLite.VInt 0%Z; GoLiteBT_Index.oor]) /\
+  GoLite.call GoLiteBT.prog GoLiteBT_Index.ext_bt 0 "Index.Get"%string
+    [GoLiteBT_Index.index_val 0 431999 0 1 [77%Z]; GoLite.VInt 0%Z] = GoLite.RRet (GoLite.VTuple [GoLite.VInt 77%Z; GoLite.VNil]).
+Proof. vm_compute. split; reflexivity. Qed.
+
 (* ================= non-vacuity ================= *)
 (* a well-formed index is opened and a stored key is found by the repaired model: the theorems are not about a
    parser that rejects everything *)
@@ -229,3 +259,4 @@ Print Assumptions C12_bucketteer_open_total.
 Print Assumptions C12_linkedlog_read_total.
 Print Assumptions C12_decoders_total.
 Print Assumptions C12_dataframe_collection_terminates.
+Print Assumptions C12_translated_blocktime_Get_never_panics.
